@@ -30,7 +30,7 @@ def usable (last : Bytes) : Prop := ∃ c rest, last = c :: rest ∧ isAlnum c =
 
 theorem sanitize_head (c : Nat) (rest : Bytes) (hc : isAlnum c = true) :
     PgsGo.sanitize (c :: rest) = c :: PgsGo.sanitize rest := by
-  simp [PgsGo.sanitize, hc]
+  simp [PgsGo.sanitize, sanitizeRunes, hc]
 
 /-- on a usable last element pgsgo's sanitising + keyword/digit prefix is `GoSanitized` -/
 theorem sanitized_agree (last : Bytes) (h : usable last) :
@@ -42,7 +42,7 @@ theorem sanitized_agree (last : Bytes) (h : usable last) :
   obtain ⟨c, rest, rfl, hc⟩ := h
   have hs := sanitize_head c rest hc
   unfold Protogen.goSanitized
-  have hmap : (c :: rest).map (fun c => if isAlnum c then c else underscore) = PgsGo.sanitize (c :: rest) := rfl
+  have hmap : sanitizeRunes (c :: rest) = PgsGo.sanitize (c :: rest) := rfl
   simp only [hmap, hs]
   by_cases hk : goKeywordsB.contains (c :: PgsGo.sanitize rest) = true
   · -- a keyword starts with a letter
